@@ -482,7 +482,10 @@ Fixpoint skip_from (rest : list rinv) (i : nat) (t : Z) (acc : list cell)
 Definition skip_cols (cols : list rinv) (i : nat) (t : Z) (acc : list cell) :=
   skip_from (skipn i cols) i t acc.
 
-(* the loop over the runs of render_suite; [bounded]: findings/D9_bound.diff *)
+(* the loop over the runs of render_suite as a checked walk - the reference the
+   proofs use; [bounded]: the end test of findings/D9_bound.diff.  What the
+   program's own pointer arithmetic does is [walk_ix] below; HtmlProofs.walk_ix_exact
+   / walk_ix_none relate the two *)
 Fixpoint walk (bounded : bool) (cols : list rinv) (i : nat) (runs : list run) (acc : list cell)
   : rowres :=
   match runs with
@@ -493,8 +496,62 @@ Fixpoint walk (bounded : bool) (cols : list rinv) (i : nat) (runs : list run) (a
       else walk bounded cols (S j) runs' (acc' ++ [Some (r_status r, r_log r)])
   end.
 
+(* The same loop with the pointer arithmetic the source really has (what the
+   translator read out of render_suite):
+     ri  = &r->invocations[i]
+     end = ri + VECTOR_LENGTH(r->invocations) + walk_end_extra
+     for (; ri < end && ri->time > run->time; ri++) <td></td>      [< or <=: walk_end_strict]
+     if (ri == end) break;                                          [== or >=: walk_break_eq]
+     ri++; render_run
+   Every read of ri->time goes through the checked accessor: [rest] = invocations[i..],
+   an empty rest is a read at or beyond invocations + VECTOR_LENGTH.  [None]: the
+   source has no end pointer at all (as shipped before the repair of defect D9). *)
+Record wlimit := mkwl { wl_end : Z; wl_strict : bool; wl_break_eq : bool }.
+
+Definition in_range (lim : option wlimit) (i : nat) : bool :=
+  match lim with
+  | None => true
+  | Some l => if wl_strict l then (Z.of_nat i <? wl_end l)%Z else (Z.of_nat i <=? wl_end l)%Z
+  end.
+
+Definition at_end (lim : option wlimit) (i : nat) : bool :=
+  match lim with
+  | None => false
+  | Some l => if wl_break_eq l then (Z.of_nat i =? wl_end l)%Z else (wl_end l <=? Z.of_nat i)%Z
+  end.
+
+Inductive skipres := SkStop | SkOOB.
+
+Fixpoint skip_ix (lim : option wlimit) (rest : list rinv) (i : nat) (t : Z) (acc : list cell)
+  {struct rest} : nat * list cell * skipres :=
+  match rest with
+  | [] => if in_range lim i then (i, acc, SkOOB) else (i, acc, SkStop)
+  | c :: rest' =>
+      if in_range lim i then
+        (if (t <? ri_time c)%Z then skip_ix lim rest' (S i) t (acc ++ [None]) else (i, acc, SkStop))
+      else (i, acc, SkStop)
+  end.
+
+Fixpoint walk_ix (lim : option wlimit) (cols : list rinv) (i : nat) (runs : list run) (acc : list cell)
+  : rowres :=
+  match runs with
+  | [] => RowOk acc
+  | r :: runs' =>
+      let '(j, acc', res) := skip_ix lim (skipn i cols) i (r_time r) acc in
+      match res with
+      | SkOOB => RowOOB acc'
+      | SkStop => if at_end lim j then RowOk acc'
+                  else walk_ix lim cols (S j) runs' (acc' ++ [Some (r_status r, r_log r)])
+      end
+  end.
+
+Definition walk_limit (cols : list rinv) : option wlimit :=
+  if walk_is_bounded
+  then Some (mkwl (Z.of_nat (List.length cols) + walk_end_extra)%Z walk_end_strict walk_break_eq)
+  else None.
+
 Definition render_suite (q : qsorts) (cols : list rinv) (s : suite) : bytes * rowres :=
-  (s_name s, walk walk_is_bounded cols 0 (qs_runs q (s_runs s)) []).
+  (s_name s, walk_ix (walk_limit cols) cols 0 (qs_runs q (s_runs s)) []).
 
 (* sort_suites *)
 Definition sort_suites (q : qsorts) (ss : list suite) : list suite :=
